@@ -185,7 +185,7 @@ func drawRead(t *rapid.T) ReadCase {
 var specRead = pbt.Register(pbt.Spec[ReadCase]{
 	Prop: "C17", Name: "read-window",
 	Rule: "a fresh home with files of generated sizes inside logs/ (plain, empty, nested, the logger's current file) and outside it (home/secret.txt, home/whatap.conf, a sibling directory); 1-10 Read(name, endpos, length) calls with names from a catalogue of 29 templates (inside, unreadable, and names with .. that resolve outside logs/), end positions negative / 0 / around the file size / beyond / extreme, lengths 1.. around the size .. extreme; oracle: a name that resolves lexically outside <home>/logs returns nil; otherwise nil or Text == content[Before:Before+len(Text)] with len(Text) <= length; non-trivial = at least one non-empty window served and at least one name pointing at an existing file outside logs/; distinct by case",
-	Quick: 300, Thorough: 12000,
+	Quick: 1500, Thorough: 60000,
 	Draw: drawRead,
 	Run:  runRead,
 })
